@@ -549,3 +549,21 @@ MUTANTS['C05']['cleanup-only-for-Exception-subclasses'] = ([(FU, """        if e
             if self.rm_part_on_exc:
                 try:
                     os.unlink(self.part_path)""")], 'detect')
+
+MUTANTS['C05']['commit-although-body-raised'] = ([(FU, """        if exc_type:
+            if self.rm_part_on_exc:
+                try:
+                    os.unlink(self.part_path)
+                except Exception:
+                    pass  # avoid masking original error
+            return
+        try:
+            atomic_rename""", """        if exc_type and not self.overwrite:
+            if self.rm_part_on_exc:
+                try:
+                    os.unlink(self.part_path)
+                except Exception:
+                    pass  # avoid masking original error
+            return
+        try:
+            atomic_rename""")], 'detect')
